@@ -273,11 +273,12 @@ class RomFSReader(TypeReaderBase, FS):
             path = path.lower()
         if path[0:2] == './':
             path = path[2:]
-        elif path[0] == '/':
+        elif path[0:1] == '/':
             path = path[1:]
         for part in path.split('/'):
             if part == '':
-                break
+                # repeated and trailing separators (and the empty path) name nothing further
+                continue
             try:
                 # noinspection PyTypeChecker
                 curr = curr['contents'][part]
